@@ -28,6 +28,14 @@ PROPS = {
         'assumptions': ['acyclic dependency graphs (cycles deadlock); real interleavings inside sync primitives are sampled, not enumerated'],
         'rule': 'random acyclic programs (1-8 dependencies, 1-3 concurrent roots, 0-2 calls per body, parallel/serial/ctx forms, repeats, five outcome kinds, three function signatures) under a random gate-release schedule (5/6 gated, 1/6 free-running); distinct = different canonical (program, observed trace); trivial = trace of <= 3 events',
     },
+    'C08': {
+        'lean': ['MageModel.Props.C08', 'MageModel.Bridge.Invoke', 'MageModel.Bridge.C08'],
+        'needs_mage': True,
+        'streams': [S('c08', 60, 600)],
+        'trusted': ['SHA-1 collision-freeness on the texts involved (hypothesis of exeBase_inj)', 'go build produces a binary that is a function of the sources it is given', 'nobody else writes the cache directory', 'the Lean SHA-1 (Invoke/Sha1.lean) is only diffed against crypto/sha1, nothing is proved about it beyond its output shape'],
+        'assumptions': ['-compile output paths are not cache names', 'MAGEFILE_HASHFAST staleness w.r.t. imported non-magefile packages is documented behaviour and outside the statement ("for the magefiles themselves")'],
+        'rule': '(a) 1-5 files of 14 sizes (0 B .. 64 KiB, 1 MiB thorough; SHA-1 block boundaries), with duplicates and single-bit edits, each set under 1-3 fresh name/order variants and five cache-directory spellings: the real mage.ExeName path vs the name computed by the Lean SHA-1 model from the contents, the extracted template and rebuild key and the recorded go version; (b) histories of 5-10 operations (edit to a new or an earlier token, add/remove a file, rename, -clean, run in default or hash mode, -f) over four layouts (plain, -d, -w, magefiles directory) x absolute/relative cache: printed token, rebuilt-or-reused and executable path vs the invocation model replaying the history; distinct = different canonical oracle input',
+    },
     'C10': {
         'lean': ['MageModel.Props.C10', 'MageModel.Bridge.Invoke'],
         'needs_mage': True,
